@@ -39,6 +39,17 @@ def add_steering(pkg):
             d.steps.append(("steershadow", M.Named("SteerShadow"), False))
             d.steps.append(("steerplain", M.Named("SteerPlain", (), "Steerlib"), False))
             d.steps.append(("steergen", M.Named("SteerGenQ", (M.Prim("int32"),)), False))
+    # a sibling protocol in the *same* package: same step names, one step encoded differently (protocol
+    # variants living side by side; a reader of one must refuse the other's streams)
+    first = [d for d in pkg.defs() if isinstance(d, M.Protocol)][0]
+    sib = copy.deepcopy(first)
+    sib.name = first.name + SIBLING
+    first.steps.append(("steersib", M.Prim("int32"), False))
+    sib.steps.append(("steersib", M.Prim("int64"), False))
+    pkg.files[fn].append(sib)
+
+
+SIBLING = "Sibling"
 
 
 def near_identical(pkg, edit):
@@ -125,6 +136,18 @@ def py_refuses(model, proto, fmt, stream):
     return ""
 
 
+def cpp_accepted(res):
+    """'' if the C++ relay refused the stream before delivering anything, else what went wrong."""
+    if res.get("crashed"):
+        return "reader crashed or hung: " + res.get("stderr", "")[-200:]
+    if res["ok"]:
+        return "foreign/corrupt stream was relayed to completion without error"
+    lines = [l for l in bytes.fromhex(res["out"]).decode("utf-8", "replace").split("\n")[1:] if l.strip()]
+    if lines:
+        return "%d values were delivered before the error %s" % (len(lines), res.get("what"))
+    return ""
+
+
 def doc(model_b, proto, ctx, what, detail, payload_hex=None, fmt="binary", lang="python"):
     return {"kind": "c15", "pkg": sw.pack_pkg(model_b.pkg), "files": M.render_tree(model_b.pkg, ""), "protocol": proto.name, "what": what, "detail": detail[:500],
             "payload_hex": payload_hex, "format": fmt, "lang": lang, "seed": ctx["seed"], "model_index": ctx["i"]}
@@ -135,7 +158,7 @@ def model_task(task, ybin, root):
     rng = M.derive(seed, "c15", i)
     want_cpp = (i % 5 == 0) if quick else (i % 2 == 0)
     cfg = M.GenConfig.swarm(rng.fork("cfg"))
-    cfg.n_protocols = (2, 2)
+    cfg.n_protocols = (1, 2)        # plus the sibling of the first one
     if want_cpp:
         cfg.time_types = False
     pkg_a = sw.stream_package(rng.next(), cfg=cfg, pad=False, for_cpp=want_cpp)
@@ -172,6 +195,7 @@ def model_task(task, ybin, root):
             r = rng.fork("bvals", proto.name)
             vals = sw.gen_values(env, ns, proto, r, finite=True, items=(1, 3))
             own[proto.name] = (codec.encode_stream(proto, ns, model.schema(proto), vals), codec.encode_ndjson(proto, ns, model.schema(proto), vals), vals)
+        cpp_jobs = []   # (protocol, what, class, fmt, payload bytes)
         for proto in protos:
             schema = model.schema(proto)
             data, text, vals = own[proto.name]
@@ -192,8 +216,10 @@ def model_task(task, ybin, root):
                 jobs.append(("NDJSON stream of the near-identical protocol (%s) delivered" % edit, "misdelivery_near_identical", "ndjson", a_streams[proto.name][1]))
             for other in protos:
                 if other.name != proto.name:
-                    jobs.append(("stream of unrelated protocol %s delivered" % other.name, "misdelivery_unrelated", "binary", own[other.name][0]))
-                    jobs.append(("NDJSON stream of unrelated protocol %s delivered" % other.name, "misdelivery_unrelated", "ndjson", own[other.name][1]))
+                    sib = other.name == proto.name + SIBLING or proto.name == other.name + SIBLING
+                    cls = "misdelivery_sibling_protocol" if sib else "misdelivery_unrelated"
+                    jobs.append(("stream of %s protocol %s delivered" % ("sibling" if sib else "unrelated", other.name), cls, "binary", own[other.name][0]))
+                    jobs.append(("NDJSON stream of %s protocol %s delivered" % ("sibling" if sib else "unrelated", other.name), cls, "ndjson", own[other.name][1]))
             for what, cls, mutated in header_faults(data, schema, rng.fork("hf", proto.name), quick):
                 jobs.append((what, cls, "binary", mutated))
             # NDJSON header line corruptions
@@ -212,7 +238,6 @@ def model_task(task, ybin, root):
                     continue
                 jobs.append(("flip bit %d of NDJSON header byte %d" % (bit, pos), "flip_ndjson_header", "ndjson", bytes(m)))
             jobs.append(("NDJSON header with version 2", "ndjson_version", "ndjson", raw.replace(b'"version":1', b'"version":2', 1)))
-            cpp_runs, cpp_meta, cpp_inputs = [], [], []
             for what, cls, fmt, payload in jobs:
                 stats["runs"] += 1
                 stats[cls] = stats.get(cls, 0) + 1
@@ -226,36 +251,41 @@ def model_task(task, ybin, root):
                                   doc(model, proto, task, what, why, (payload if isinstance(payload, bytes) else payload.encode()).hex(), fmt, "python")))
                 if cm is not None:
                     pb = payload if isinstance(payload, bytes) else payload.encode("utf-8")
-                    cpp_inputs.append(pb)
-                    cpp_runs.append({"proto": proto.name, "op": "relay", "in_fmt": fmt, "out_fmt": "ndjson", "input": len(cpp_inputs) - 1})
-                    cpp_meta.append((what, cls, fmt, pb))
-            if cm is not None and cpp_runs:
-                # positive control for C++ as well
-                cpp_inputs.append(data)
-                cpp_runs.append({"proto": proto.name, "op": "relay", "in_fmt": "binary", "out_fmt": "ndjson", "input": len(cpp_inputs) - 1})
-                results = cm.run_plan(cpp_inputs, cpp_runs, timeout=180)
-                ctrl = results[-1]
-                if ctrl is None or ctrl.get("crashed") or not ctrl.get("ok"):
-                    stats["cpp_baseline_unreadable(skipped)"] = stats.get("cpp_baseline_unreadable(skipped)", 0) + 1
-                else:
-                    for res, (what, cls, fmt, pb) in zip(results[:-1], cpp_meta):
-                        stats["runs"] += 1
-                        stats["cpp_" + cls] = stats.get("cpp_" + cls, 0) + 1
-                        if res is None:
-                            continue
-                        why = ""
-                        if res.get("crashed"):
-                            why = "reader crashed or hung: " + res.get("stderr", "")[-200:]
-                        elif res["ok"]:
-                            why = "foreign/corrupt stream was relayed to completion without error"
-                        else:
-                            lines = [l for l in bytes.fromhex(res["out"]).decode("utf-8", "replace").split("\n")[1:] if l.strip()]
-                            if lines:
-                                why = "%d values were delivered before the error %s" % (len(lines), res.get("what"))
-                        if why:
-                            viols.append(({"class": "foreign_or_corrupt_stream_accepted", "lang": "cpp", "format": fmt, "fault": cls},
-                                          doc(model, proto, task, what, why, pb.hex(), fmt, "cpp")))
+                    cpp_jobs.append((proto, what, cls, fmt, pb))
+            if cm is not None:
+                # positive controls for C++ as well: the protocol's own streams in both formats
+                cpp_jobs.append((proto, "own binary stream", "control", "binary", data))
+                cpp_jobs.append((proto, "own NDJSON stream", "control_ndjson", "ndjson", raw))
             cases.append((["c15", i, proto.name, edit], len(jobs) > 2))
+        if cm is not None and cpp_jobs:
+            # One process per model, the readers of all its protocols opened in a seeded order: whatever a reader
+            # instance leaves behind in the process (caches, statics) is part of the state the next one starts from.
+            rng.fork("cpporder").shuffle(cpp_jobs)
+            inputs = [pb for _, _, _, _, pb in cpp_jobs]
+            runs = [{"proto": p.name, "op": "relay", "in_fmt": fmt, "out_fmt": "ndjson", "input": k} for k, (p, _, _, fmt, _) in enumerate(cpp_jobs)]
+            results = cm.run_plan(inputs, runs, timeout=300)
+            ctrl_ok = {}
+            for res, (p, what, cls, fmt, pb) in zip(results, cpp_jobs):
+                if cls == "control":
+                    ctrl_ok[p.name] = bool(res is not None and not res.get("crashed") and res.get("ok"))
+            for k, (res, (p, what, cls, fmt, pb)) in enumerate(zip(results, cpp_jobs)):
+                if cls.startswith("control"):
+                    continue
+                if not ctrl_ok.get(p.name):
+                    stats["cpp_baseline_unreadable(skipped)"] = stats.get("cpp_baseline_unreadable(skipped)", 0) + 1
+                    continue
+                stats["runs"] += 1
+                stats["cpp_" + cls] = stats.get("cpp_" + cls, 0) + 1
+                if res is None:
+                    continue
+                why = cpp_accepted(res)
+                if why:
+                    d = doc(model, p, task, what, why, pb.hex(), fmt, "cpp")
+                    # does it need the readers opened earlier in the same process?
+                    alone = cm.run_plan([pb], [{"proto": p.name, "op": "relay", "in_fmt": fmt, "out_fmt": "ndjson", "input": 0}])[0]
+                    if not (alone is not None and cpp_accepted(alone)):
+                        d["history"] = [[q.name, f2, b2.hex()] for (q, _, _, f2, b2) in cpp_jobs[:k]]
+                    viols.append(({"class": "foreign_or_corrupt_stream_accepted", "lang": "cpp", "format": fmt, "fault": cls, "needs_earlier_readers": "history" in d}, d))
     finally:
         model.close()
     seen, out = set(), []
@@ -280,13 +310,13 @@ def replay_doc(d, ybin, root):
             why = py_refuses(model, proto, d["format"], stream)
             return bool(why), why
         cm = C.CppModel(model.dir)
-        res = cm.run_plan([payload], [{"proto": proto.name, "op": "relay", "in_fmt": d["format"], "out_fmt": "ndjson", "input": 0}])[0]
-        if res.get("crashed"):
-            return True, "crashed"
-        if res["ok"]:
-            return True, "relayed to completion"
-        lines = [l for l in bytes.fromhex(res["out"]).decode("utf-8", "replace").split("\n")[1:] if l.strip()]
-        return bool(lines), "%d values before error" % len(lines)
+        hist = d.get("history") or []
+        inputs = [bytes.fromhex(h[2]) for h in hist] + [payload]
+        runs = [{"proto": h[0], "op": "relay", "in_fmt": h[1], "out_fmt": "ndjson", "input": k} for k, h in enumerate(hist)]
+        runs.append({"proto": proto.name, "op": "relay", "in_fmt": d["format"], "out_fmt": "ndjson", "input": len(hist)})
+        res = cm.run_plan(inputs, runs, timeout=300)[-1]
+        why = cpp_accepted(res) if res is not None else ""
+        return bool(why), why or "refused: %s" % (res or {}).get("what")
     finally:
         model.close()
 
@@ -297,12 +327,13 @@ def main():
                      "wire-relevant edit: field type, order of two same-typed fields, enum base, enum value, fixed-vector length, union case order, field name, optionality, map "
                      "value type), the streams of the other protocols of B, every single-bit flip of magic / version word / schema-length varint plus seeded byte substitutions "
                      "there, seeded bit flips in the schema text, schema replaced by a proper prefix / extended by one byte, seeded bit flips in the NDJSON header line (benign ones "
-                     "skipped) and an NDJSON header with another format version; python always, C++ relay for a share of the models; distinct = (model, protocol, edit)"),
+                     "skipped) and an NDJSON header with another format version; python always, C++ relay for a share of the models — all C++ readers of one model are opened in one process in a seeded order, interleaved with intact streams "
+                     "of every protocol in both formats (state left behind by an earlier reader instance is part of the history); distinct = (model, protocol, edit)"),
                real_code="generated Python readers (+ shipped _binary.py/_ndjson.py); generated C++ readers (+ shipped header.h, reader_writer.h)",
                stubbed="C++ nd-array header and date/date.h",
                assumptions=["a corruption after which the header is still the reader's own header by the documented format (NDJSON line parsing to the same JSON) is benign and skipped"],
                replay_fn=replay_doc, quick_budget=140,
-               fault_keys=("misdelivery_near_identical", "misdelivery_unrelated", "flip_magic", "flip_version", "flip_schema_length", "subst_magic", "subst_version",
+               fault_keys=("misdelivery_near_identical", "misdelivery_unrelated", "misdelivery_sibling_protocol", "flip_magic", "flip_version", "flip_schema_length", "subst_magic", "subst_version",
                            "subst_schema_length", "flip_schema_text", "schema_prefix", "schema_extended", "flip_ndjson_header", "ndjson_version"))
 
 
